@@ -8,6 +8,9 @@ What is modelled (`Model/Gather.lean`): `CounterGather` (add / downsample / peek
 generically in the sketch type; the theorems below are about its instance on *list sketches*
 (`Model/GatherL.lean`: scaled value + ascending hash list + abundances, every operation a filter),
 which the `gather` correspondence stream runs next to the `MH` instance and the real code on every case.
+The two instances are tied by a proof as well (`instance_tie_ops`, `instance_tie_run`): every sketch operation
+of the shared MinHash model commutes with the abstraction `ofMH`, and a prefetch-mode run of the `MH` instance
+reports exactly the records of the list-sketch run on the abstracted inputs.
 
 Notation.  `dn s l` = the hashes of `l` a sketch at scaled `s` retains; `ovl Q D` = number of elements
 of `Q` in `D` (for ascending lists `|Q ∩ D|`); `diffL Q D = Q ∖ D`; `g.unassigned sq sd` = the
@@ -25,10 +28,10 @@ Assumptions that are explicit hypotheses:
   reaches the clamp because `(1 − 1/s)^(d·s) < 1/d`) and for plain fractions (`ratOps_laws`); that the
   rounded doubles keep the strict order is checked by the correspondence stream only.
 * sizes below `2^53` (integers convert to doubles exactly).
-* `NoD6`: `threshold_bp = 0`, or the query is at least as coarse as the database *and* float division
-  is monotone in its numerator (`PrefetchPermissive`, see `Lemmas/GatherDb.lean`; proved for threshold 0).
-  Without it `greedy_max` / `stops_only_below` over the whole database are FALSE: finding D6
-  (`d6_gather_misses_reportable`).
+* the input condition of `greedy_max` / `stops_only_below`: `threshold_bp = 0`, or the query is at least as
+  coarse as the database.  (The float-division monotonicity `PrefetchPermissive` that used to be a second
+  hypothesis is now proved, `prefetch_permissive`.)  Without the input condition the two statements are FALSE:
+  finding D6g (`d6_gather_misses_reportable`).
 
 Findings (each with a kernel-checked witness below):
 * D6g — D6 lifted to gather (known): query finer than the database and `threshold_bp > 0`
@@ -46,6 +49,9 @@ import SmVerif.Lemmas.GatherExamples
 import SmVerif.Lemmas.GatherMixed
 import SmVerif.Lemmas.GatherDebias
 import SmVerif.Lemmas.GatherNoAssert
+import SmVerif.Lemmas.GatherThreshold
+import SmVerif.Lemmas.GatherSimMH
+import SmVerif.Lemmas.GatherCli
 
 set_option autoImplicit false
 
@@ -192,19 +198,35 @@ theorem column_defs {res : GRes σ} {best : Sig LS} {s : Nat} {origHs gqHs : Lis
 
 /-! ### the whole database: `greedy_max`, `stops_only_below`, `never_revives` -/
 
-/- FULL STATEMENT (not proved / false):
+/- FULL STATEMENT (false without the input condition):
      greedy_max : in every reachable state, a reported sketch has maximal overlap with the unassigned hashes
        among ALL database sketches and that overlap reaches the threshold;
      stops_only_below : the iteration stops only when no database sketch reaches the threshold.
-   Both are FALSE when the query is finer than the database and threshold_bp > 0 (finding D6,
+   Both are FALSE when the query is finer than the database and threshold_bp > 0 (finding D6g,
    `d6_gather_misses_reportable`): prefetch converts threshold_bp into a containment fraction with the
    query's original scaled and size and compares it after downsampling.
-   Proved: under `NoD6` (threshold 0; or query at least as coarse as the database, with the float-division
-   monotonicity `PrefetchPermissive` as an explicit hypothesis that is proved only for threshold 0). -/
-theorem greedy_max_partial (laws : ScoreLaws ops) {q : LS} (hq : q.WF) {sd thr : Nat} {t nT : F64.F}
+   Proved below for every other input (`threshold_bp = 0`, or query at least as coarse as the database): the
+   float hypothesis `PrefetchPermissive` the earlier `_partial` versions carried is now a theorem
+   (`prefetch_permissive`, from C06's monotonicity of the correctly rounded quotient). -/
+
+/-- the prefetch pass accepts whatever the per-round threshold test accepts when both are taken at the same
+resolution and size: `k ≥ fl(bp/s)` ⇒ `fl(k/n) ≥ fl(fl(bp/s)/n)` (sizes below `2^53`) -/
+theorem prefetch_permissive {thr s n0 : Nat} {t nT : F64.F} (hthr : thr < 2 ^ 53) (hs : s < 2 ^ 53)
+    (hn : n0 < 2 ^ 53) (h : calcThreshold thr s n0 = .ok (t, nT)) : PrefetchPermissive t nT n0 :=
+  prefetchPermissive_calc hthr hs hn h
+
+/-- both threshold tests of gather are the integer test `bp ≤ k · scaled` (for `bp ≤ 2^50`):
+`CounterGather.peek`'s `match_size < n_threshold_hashes` and `Index.find`'s `shared / n >= threshold` -/
+theorem threshold_tests_exact {bp S n k : Nat} {t nT : F64.F} (hS0 : 0 < S) (hS : S < 2 ^ 53) (hn0 : 0 < n)
+    (hn : n < 2 ^ 53) (hk : k ≤ n) (hbp : bp ≤ 2 ^ 50) (h : calcThreshold bp S n = .ok (t, nT)) :
+    (belowThreshold (k : Int) nT = false ↔ bp ≤ k * S) ∧
+    (passes (scoreContainment n k) t = true ↔ (k ≠ 0 ∧ bp ≤ k * S)) :=
+  ⟨not_below_iff_bp hS hbp (lt_of_le_of_lt hk hn) h, passes_iff_bp hS hn hk hbp hS0 hn0 h⟩
+
+theorem greedy_max (laws : ScoreLaws ops) {q : LS} (hq : q.WF) {sd thr : Nat} {t nT : F64.F}
     {dbs : List (List (Sig LS))} (hdb : ∀ db ∈ dbs, ∀ d ∈ db, d.mh.WF ∧ d.mh.scaled = sd)
-    (hthr : calcThreshold thr q.scaled q.hs.length = .ok (t, nT)) (hcase : NoD6 q sd thr t nT)
-    (hsize : q.hs.length < 2 ^ 53) {Q0 NI0 : List Nat} {g0 g g' : GD LS} {res : GRes σ}
+    (hthr : calcThreshold thr q.scaled q.hs.length = .ok (t, nT)) (hin : thr = 0 ∨ sd ≤ q.scaled)
+    (hthr53 : thr < 2 ^ 53) (hsize : q.hs.length < 2 ^ 53) {Q0 NI0 : List Nat} {g0 g g' : GD LS} {res : GRes σ}
     (h0 : GInv q.scaled sd (candLists q t dbs) g0) (a0 : AInv q.scaled sd Q0 NI0 g0)
     (hun0 : g0.unassigned q.scaled sd = dn (max q.scaled sd) q.hs) (hthr0 : g0.thresholdBp = thr)
     (hr : Reach ops g0 g) (hn : g.next lsOps ops = .ok (g', some res)) :
@@ -215,12 +237,12 @@ theorem greedy_max_partial (laws : ScoreLaws ops) {q : LS} (hq : q.WF) {sd thr :
       reaches thr (max q.scaled sd) (g.unassigned q.scaled sd).length
         (ovl (g.unassigned q.scaled sd) (dn (max q.scaled sd) best.mh.hs)) ∧
       g'.unassigned q.scaled sd = diffL (g.unassigned q.scaled sd) (dn (max q.scaled sd) best.mh.hs) :=
-  greedy_max_db laws hq hdb hthr hcase hsize h0 a0 hun0 hthr0 hr hn
+  greedy_max_db laws hq hdb hthr (noD6_of_inputs hq hthr53 hsize hthr hin) hsize h0 a0 hun0 hthr0 hr hn
 
-theorem stops_only_below_partial (laws : ScoreLaws ops) {q : LS} (hq : q.WF) {sd thr : Nat} {t nT : F64.F}
+theorem stops_only_below (laws : ScoreLaws ops) {q : LS} (hq : q.WF) {sd thr : Nat} {t nT : F64.F}
     {dbs : List (List (Sig LS))} (hdb : ∀ db ∈ dbs, ∀ d ∈ db, d.mh.WF ∧ d.mh.scaled = sd)
-    (hthr : calcThreshold thr q.scaled q.hs.length = .ok (t, nT)) (hcase : NoD6 q sd thr t nT)
-    (hsize : q.hs.length < 2 ^ 53) {Q0 NI0 : List Nat} {g0 g g' : GD LS}
+    (hthr : calcThreshold thr q.scaled q.hs.length = .ok (t, nT)) (hin : thr = 0 ∨ sd ≤ q.scaled)
+    (hthr53 : thr < 2 ^ 53) (hsize : q.hs.length < 2 ^ 53) {Q0 NI0 : List Nat} {g0 g g' : GD LS}
     (h0 : GInv q.scaled sd (candLists q t dbs) g0) (a0 : AInv q.scaled sd Q0 NI0 g0)
     (hun0 : g0.unassigned q.scaled sd = dn (max q.scaled sd) q.hs) (hthr0 : g0.thresholdBp = thr)
     (hr : Reach ops g0 g) (hn : g.next lsOps ops = .ok (g', none)) :
@@ -229,10 +251,12 @@ theorem stops_only_below_partial (laws : ScoreLaws ops) {q : LS} (hq : q.WF) {sd
       ovl (g.unassigned q.scaled sd) (dn (max q.scaled sd) d.mh.hs) = 0 ∨
       ¬ reaches thr (max q.scaled sd) (g.unassigned q.scaled sd).length
           (ovl (g.unassigned q.scaled sd) (dn (max q.scaled sd) d.mh.hs)) :=
-  stops_only_below_db laws hq hdb hthr hcase hsize h0 a0 hun0 hthr0 hr hn
+  stops_only_below_db laws hq hdb hthr (noD6_of_inputs hq hthr53 hsize hthr hin) hsize h0 a0 hun0 hthr0 hr hn
 
-/-- with `threshold_bp = 0` the side condition is void -/
-theorem noD6_of_thr_zero (q : LS) (sd : Nat) (t nT : F64.F) : NoD6 q sd 0 t nT := Or.inl rfl
+/-- the side condition `NoD6` used by the lemma files is implied by the input condition -/
+theorem noD6_of_input_condition {q : LS} {sd thr : Nat} {t nT : F64.F} (hq : q.WF) (hthr : thr < 2 ^ 53)
+    (hn : q.hs.length < 2 ^ 53) (h : calcThreshold thr q.scaled q.hs.length = .ok (t, nT))
+    (hin : thr = 0 ∨ sd ≤ q.scaled) : NoD6 q sd thr t nT := noD6_of_inputs hq hthr hn h hin
 
 /-- `never_revives`: along a run the overlap of any sketch with the unassigned hashes only decreases (so a
 sketch dropped by prefetch can never become eligible) -/
@@ -307,8 +331,9 @@ maintain, whatever the scaled values — and any current query.  `AssertLaws.non
 non-zero containment) rules out `assert cont`, the assert D25 hit; `AssertLaws.above` is the second assert
 (`cont >= threshold`) stated as a law of the score arithmetic. -/
 theorem peek_never_asserts {thr : Nat} (laws : AssertLaws ops thr) {c : Counter LS} {cur : LS}
-    (hc : CNZ c) (hcs : Sorted cur.hs) : c.peek lsOps ops cur thr ≠ .error .assertion :=
-  Counter.peek_na laws hc hcs
+    (hc : CNZ c) (hcs : Sorted cur.hs) (hcur : cur.scaled ≤ 2 ^ 31) (hlen : cur.hs.length < 2 ^ 53) :
+    c.peek lsOps ops cur thr ≠ .error .assertion :=
+  Counter.peek_na laws hc hcs hcur hlen
 
 /-- **a prefetch-mode gather run over ANY database raises no `AssertionError`**: query well formed, every
 database sketch sorted with a scaled value in `[1, 2^31]` (no relation between the scaled values of the query
@@ -320,9 +345,10 @@ theorem gather_never_asserts {thr : Nat} (laws : AssertLaws ops thr) {q : LS} (h
     {dbs : List (List (Sig LS))} {cs : List (Counter LS)} {ign : Bool} {g : GD LS}
     (hdb : ∀ db ∈ dbs, ∀ d ∈ db, Sorted d.mh.hs ∧ 1 ≤ d.mh.scaled ∧ d.mh.scaled ≤ 2 ^ 31)
     (hcs : List.Forall₂ (fun db c => counterGather lsOps db q thr = .ok c) dbs cs)
+    (hsize : q.hs.length < 2 ^ 53)
     (h : GD.init lsOps q (cs.map CObj.cg) thr ign none none = .ok g) (n : Nat) :
     g.run lsOps ops n ≠ .error .assertion :=
-  run_na laws n g (ninv_init hq hdb hcs h)
+  run_na laws n g (ninv_init hq hdb hcs hsize h)
 
 /-- ... and in every state such a run reaches, `__next__` raises none and keeps the invariant -/
 theorem next_never_asserts {thr : Nat} (laws : AssertLaws ops thr) {g : GD LS} (hinv : NInv thr g) :
@@ -335,17 +361,167 @@ containment -/
 theorem assert_laws_threshold_zero : AssertLaws ratOps 0 ∧ AssertLaws qOps 0 :=
   ⟨ratOps_assertLaws_zero, qOps_assertLaws_zero⟩
 
-/- FULL STATEMENT (not proved): `gather_never_asserts` without the hypothesis `AssertLaws.above` for
-   `threshold_bp > 0`, i.e. `contained_by(match) >= threshold` whenever `match_size >= n_threshold_hashes`.  For
-   the doubles of the code this follows from monotone rounding (`c/(d·bias) ≥ c/d ≥ n/d` with `bias ≤ 1`) if libm
-   `pow` returns a value in `[0, 1]`; for the EXACT value of the expression against the ROUNDED threshold it is
-   not a theorem (`fl(n/d)` can exceed `n/d` by more than `c/(d·bias)` exceeds `c/d`).  The correspondence stream
-   exercises it (thresholds 0 … 5 kbp) and has never seen it fail. -/
+/-- **`AssertLaws` for every threshold** from `DebiasLaws`: the second assert (`cont >= threshold`) is proved
+by monotone rounding (`match_size ≥ fl(bp/s)` ⇒ `fl(match_size/n) ≥ fl(fl(bp/s)/n)`) for every score arithmetic
+whose containment is at least the plain double quotient `fl(c/d)`.  That domination is the one libm-dependent
+statement left (de-biasing divides by `1 − pow(1 − 1/s, d·s)`, which is `≤ 1` iff `pow` returns a value in
+`[0, 1]`); it holds trivially for the quotient without de-biasing (`plainOps`). -/
+theorem assert_laws_every_threshold {thr : Nat} (hthr : thr < 2 ^ 53) :
+    (DebiasLaws ops → AssertLaws ops thr) ∧ AssertLaws plainOps thr :=
+  ⟨fun L => assertLaws_of_debias L hthr, plainOps_assertLaws hthr⟩
+
+/- FULL STATEMENT (not proved): `gather_never_asserts` with NO hypothesis on the score arithmetic for
+   `threshold_bp > 0`.  What remains assumed is `DebiasLaws.dominates` (`contained_by ≥ fl(c/d)`), which depends
+   on libm `pow` returning a value in [0, 1]; for the EXACT value of the de-biased expression against the ROUNDED
+   threshold the assert's condition is not a theorem (`fl(n/d)` can exceed `n/d` by more than `c/(d·bias)`
+   exceeds `c/d`), so `ratOps` / `qOps` satisfy `AssertLaws` only for threshold 0. -/
 
 /- FULL STATEMENT (not proved / false): for databases mixing scaled values the reported FRACTIONS
    `f_unique_to_query = |U_i| / orig_query_len_i` sum to at most 1.  False: `orig_query_len_i` is the size of
    the query downsampled to round `i`'s comparison scaled, which grows during the run
    (`mixed_scaled_fractions_sum_above_one`). -/
+
+/-! ### the command-line path (`commands.gather`): ident / noident bookkeeping -/
+
+/-- `commands.gather` splits the flattened query with the prefetch counters: `ident_mh` = the query hashes some
+candidate covers (the union of `CounterGather.union_found()` over the counters), `noident_mh` = the others;
+both flat, at the query's scaled, ascending -/
+theorem cli_split {q : LS} (hq : q.WF) {cs : List (Counter LS)}
+    (hcs : ∀ c ∈ cs, c.origQuery = q.flat ∧ ∀ e ∈ c.entries, e.sig.mh.WF) :
+    ∃ i n, cliSplit lsOps q cs = .ok (i, n) ∧
+      i.scaled = q.scaled ∧ i.ab = none ∧ Sorted i.hs ∧ n.scaled = q.scaled ∧ n.ab = none ∧ Sorted n.hs ∧
+      (∀ x, x ∈ i.hs ↔ x ∈ q.hs ∧ Cov q.scaled q.hs cs x) ∧
+      (∀ x, x ∈ n.hs ↔ x ∈ q.hs ∧ ¬ Cov q.scaled q.hs cs x) :=
+  cliSplit_ls hq hcs
+
+/-- **the invariants of `round` / `column_defs` / `uniq_disjoint` / `fractions_sum` / `terminates` hold on the
+CLI path** (`counter_gather` per database, the ident / noident split,
+`GatherDatabases(query, counters, noident_mh=, ident_mh=)`), with `Q0 = ident_mh`, `NI0 = noident_mh`.  The
+counters were counted against the whole query but are exact for `ident_mh`, because every candidate's overlap
+with the query lies inside `ident_mh`.  `ident_mh` and `noident_mh` partition the query's hashes at every
+resolution, so `orig_query_len = |dn s Q0| + |dn s NI0|` is the size of the whole query, as in the plain API;
+the never-identified hashes enter `remaining_bp` and the weighted totals only. -/
+theorem cli_init {q : LS} (hq : q.WF) {sd thr : Nat} (hsd1 : 1 ≤ sd) (hsd2 : sd ≤ 2 ^ 31)
+    {t nT : F64.F} (hthr : calcThreshold thr q.scaled q.hs.length = .ok (t, nT))
+    {dbs : List (List (Sig LS))} {cs : List (Counter LS)} {ign : Bool} {g : GD LS} {i n : LS}
+    (hdb : ∀ db ∈ dbs, ∀ d ∈ db, d.mh.WF ∧ d.mh.scaled = sd) (hmd5 : ∀ db ∈ dbs, MD5OK db)
+    (hcs : List.Forall₂ (fun db c => counterGather lsOps db q thr = .ok c) dbs cs)
+    (hsize : q.hs.length < 2 ^ 53)
+    (hsplit : cliSplit lsOps q cs = .ok (i, n))
+    (h : GD.init lsOps q (cs.map CObj.cg) thr ign (some n) (some i) = .ok g) :
+    GInv q.scaled sd (candLists q t dbs) g ∧ AInv q.scaled sd i.hs n.hs g ∧
+    g.unassigned q.scaled sd = dn (max q.scaled sd) i.hs ∧ g.thresholdBp = thr ∧ g.origSigMh = q ∧
+    g.resultN = 0 ∧
+    (∀ x, x ∈ q.hs ↔ x ∈ i.hs ∨ x ∈ n.hs) ∧ (∀ x, x ∈ i.hs → x ∉ n.hs) ∧
+    (∀ s, (dn s i.hs).length + (dn s n.hs).length = (dn s q.hs).length) :=
+  init_invariants_cli hq hsd1 hsd2 hthr hdb hmd5 hcs hsize hsplit h
+
+/-- `fractions_sum` on the CLI path, spelled out: the unique overlaps are disjoint subsets of `ident_mh`, and
+`Σ|U_i| ≤ |ident_mh at s| ≤ |query at s| = orig_query_len`, so the reported `f_unique_to_query` sum to at most 1 -/
+theorem cli_fractions_sum (laws : ScoreLaws ops) {q : LS} (hq : q.WF) {sd thr : Nat} (hsd1 : 1 ≤ sd)
+    (hsd2 : sd ≤ 2 ^ 31) {t nT : F64.F} (hthr : calcThreshold thr q.scaled q.hs.length = .ok (t, nT))
+    {dbs : List (List (Sig LS))} {cs : List (Counter LS)} {ign : Bool} {g gf : GD LS} {i n : LS}
+    (hdb : ∀ db ∈ dbs, ∀ d ∈ db, d.mh.WF ∧ d.mh.scaled = sd) (hmd5 : ∀ db ∈ dbs, MD5OK db)
+    (hcs : List.Forall₂ (fun db c => counterGather lsOps db q thr = .ok c) dbs cs)
+    (hsize : q.hs.length < 2 ^ 53) (hsplit : cliSplit lsOps q cs = .ok (i, n))
+    (h : GD.init lsOps q (cs.map CObj.cg) thr ign (some n) (some i) = .ok g) (k : Nat) {rs : List (GRes σ)}
+    (hrun : g.run lsOps ops k = .ok (gf, rs)) :
+    (rs.map (·.isectCur)).Pairwise List.Disjoint ∧
+    sumNats (rs.map (fun r => r.isectCur.length)) + (dn (max q.scaled sd) n.hs).length
+      ≤ (dn (max q.scaled sd) q.hs).length := by
+  obtain ⟨hg, ha, hun, _, _, _, _, _, hlen⟩ := init_invariants_cli hq hsd1 hsd2 hthr hdb hmd5 hcs hsize hsplit h
+  have h1 := uniq_disjoint laws k g gf rs hg ha hrun
+  obtain ⟨_, _, h3⟩ := fractions_sum laws k g gf rs hg ha hrun
+  rw [hun] at h3
+  have := hlen (max q.scaled sd)
+  exact ⟨h1, by omega⟩
+
+/-- the CLI path on the example database (kernel-evaluated): split 1..15 / 16..20, two rounds, `orig_query_len`
+20 in both, `remaining_bp` 18 and 10 -/
+example : cliRunCheck exQuery [exD1, exD2] = true := cliRunCheck_true
+
+/-! ### the instance tie: the theorems speak about the shared MinHash model -/
+
+/-- **every sketch operation gather uses commutes with the abstraction `ofMH`** (shared MinHash model → list
+sketch) on valid scaled sketches of one collection (`SInv`: representation invariant, `num = 0`, threshold
+`mhR S` with `1 ≤ S ≤ 2^31`, common ksize / hash function / seed): `downsample` (mutable and frozen),
+`flatten`, `&`, `count_common(downsample=True)`, `is_compatible`, `intersection_and_union_size`,
+`copy_and_clear`, `to_mutable` (pickle round trip), `remove_many`.  Built on the `count`-level specifications
+of C01 / C03 / C04. -/
+theorem instance_tie_ops (k hf seed : Nat) : SkSim mhOps lsOps (SimR k hf seed) SimP := mh_ls_sim k hf seed
+
+/-- **a whole prefetch-mode gather on the shared MinHash model reports exactly the `GatherResult` records of the
+list-sketch run on the abstracted inputs** (counters by `counter_gather`, `__init__`, any number of rounds).
+The theorems of this file about `GD.run lsOps` therefore describe the shared-model instance — the one the
+correspondence stream compares with the real code — without relying on the run-time `L=ok` cross-check. -/
+theorem instance_tie_run {k hf seed : Nat} {q : MH} (hq : SInv k hf seed q) {dbs : List (List (Sig MH))}
+    (hdbs : ∀ db ∈ dbs, ∀ d ∈ db, SInv k hf seed d.mh) (thr : Nat) (ign : Bool)
+    {cs : List (Counter MH)} (hcs : List.Forall₂ (fun db c => counterGather mhOps db q thr = .ok c) dbs cs)
+    {g : GD MH} (hg : GD.init mhOps q (cs.map CObj.cg) thr ign none none = .ok g) (n : Nat)
+    {gf : GD MH} {rs : List (GRes σ)} (hrun : g.run mhOps ops n = .ok (gf, rs)) :
+    ∃ cs' g' gf', List.Forall₂ (fun db c => counterGather lsOps (db.map sigOfMH) (ofMH q) thr = .ok c) dbs cs' ∧
+      GD.init lsOps (ofMH q) (cs'.map CObj.cg) thr ign none none = .ok g' ∧
+      g'.run lsOps ops n = .ok (gf', rs) ∧ gf'.query = ofMH gf.query :=
+  gather_transfer hq hdbs thr ign hcs hg n hrun
+
+/-- one round from related states (any reachable state of the two runs) -/
+theorem instance_tie_round {k hf seed : Nat} {g : GD MH} {g' : GD LS} (hrel : RGD (SimR k hf seed) SimP g g')
+    {gn : GD MH} {r : Option (GRes σ)} (h : g.next mhOps ops = .ok (gn, r)) :
+    ∃ gn', g'.next lsOps ops = .ok (gn', r) ∧ RGD (SimR k hf seed) SimP gn gn' :=
+  next_transfer hrel h
+
+/-- the counters `counter_gather` builds from abstracted valid sketches carry the invariant of
+`gather_never_asserts` -/
+theorem counters_cnz_of_sinv {k hf seed : Nat} {q : MH} (hq : SInv k hf seed q) {thr : Nat} :
+    ∀ {dbs : List (List (Sig MH))} {cs' : List (Counter LS)},
+      List.Forall₂ (fun db c => counterGather lsOps (db.map sigOfMH) (ofMH q) thr = .ok c) dbs cs' →
+      (∀ db ∈ dbs, ∀ d ∈ db, SInv k hf seed d.mh) → ∀ c ∈ cs', CNZ c := by
+  intro dbs cs' h
+  induction h with
+  | nil => intro _ c hc; cases hc
+  | @cons db c0 dbs' cs'' hd _ ih =>
+    intro hdbs c hc
+    rcases List.mem_cons.1 hc with rfl | hc
+    · refine counterGather_cnz hq.wf.hi ?_ hd
+      intro d hdm
+      obtain ⟨d0, hd0, rfl⟩ := List.mem_map.1 hdm
+      have hw := (hdbs db List.mem_cons_self d0 hd0).wf
+      exact ⟨hw.sorted, hw.lo, hw.hi⟩
+    · exact ih (fun d hd' => hdbs d (List.mem_cons_of_mem _ hd')) c hc
+
+/-- a transferred statement: on the shared MinHash model, over ANY database (scaled values mixed freely), the
+unique overlaps a prefetch-mode run reports are pairwise disjoint subsets of the query's hashes and
+`Σ|U_i| + |left| ≤ |query|` -/
+theorem uniq_disjoint_shared_model {k hf seed : Nat} {q : MH} (hq : SInv k hf seed q)
+    {dbs : List (List (Sig MH))} (hdbs : ∀ db ∈ dbs, ∀ d ∈ db, SInv k hf seed d.mh) (thr : Nat) (ign : Bool)
+    {cs : List (Counter MH)} (hcs : List.Forall₂ (fun db c => counterGather mhOps db q thr = .ok c) dbs cs)
+    {g : GD MH} (hg : GD.init mhOps q (cs.map CObj.cg) thr ign none none = .ok g) (n : Nat)
+    {gf : GD MH} {rs : List (GRes σ)} (hrun : g.run mhOps ops n = .ok (gf, rs)) :
+    (rs.map (·.isectCur)).Pairwise List.Disjoint ∧
+    (∀ r ∈ rs, ∀ x ∈ r.isectCur, x ∈ q.mins) ∧
+    sumNats (rs.map (fun r => r.isectCur.length)) + gf.query.mins.length ≤ q.mins.length := by
+  obtain ⟨cs', g', gf', hcs', hg', hrun', hgf⟩ := gather_transfer hq hdbs thr ign hcs hg n hrun
+  -- the list-sketch run satisfies the scaled-agnostic invariant
+  have hcnz : ∀ c ∈ cs', CNZ c := counters_cnz_of_sinv hq hcs' hdbs
+  obtain ⟨hm, hqhs⟩ := mixed_init (pool := (cs'.map CObj.cg).flatMap CObj.sigs) hq.wf
+    (by
+      intro s hs
+      obtain ⟨o, ho, hso⟩ := List.mem_flatMap.1 hs
+      obtain ⟨c, hc, rfl⟩ := List.mem_map.1 ho
+      simp only [CObj.sigs, List.mem_map] at hso
+      obtain ⟨e, he, rfl⟩ := hso
+      exact ((hcnz c hc).ent e he).1)
+    (fun o ho s hs => List.mem_flatMap.2 ⟨o, ho, hs⟩) hg'
+  obtain ⟨h1, h2, h3⟩ := uniq_disjoint_any_database n g' gf' rs hm hrun'
+  rw [hqhs] at h2 h3
+  rw [hgf] at h3
+  exact ⟨h1, h2, h3⟩
+
+/-- the invariant of the tie is satisfiable: a sketch built by the shared model at scaled 2 -/
+example : SInv 21 1 42 ((MH.new 2 21 1 42 false 0).addMany [5, 3, 9]) := by
+  have hn : Sm.Scaled (MH.new 2 21 1 42 false 0) := ⟨inv_new .., rfl, by decide⟩
+  have f := addMany_frame (MH.new 2 21 1 42 false 0) [5, 3, 9]
+  exact ⟨(hn.addMany _).inv, f.1, f.2.2.1, f.2.2.2.2.1, f.2.2.2.1, ⟨2, by decide, by decide, f.2.1⟩⟩
 
 /-! ### findings, kernel-checked -/
 
